@@ -5,7 +5,7 @@
 package limrun
 
 import (
-	"bufio"
+	"bytes"
 	"context"
 	"fmt"
 	"os"
@@ -194,41 +194,81 @@ func (e *Env) Run(s Spec) (out Outcome) {
 		data.Close()
 	}()
 
+	// The report is read with plain non-blocking reads: everything the main process writes is in
+	// the pipe before it ends, so after the runner returned one drain collects all of it, no matter
+	// who else still holds a copy of the write end (pre-exec children of other workers do, briefly).
+	// Only the "ext" mode needs to see a line while the program runs.
 	var (
 		mu      sync.Mutex
-		lines   []Line
+		raw     bytes.Buffer
 		pid     int
 		pidSet  = make(chan struct{})
 		once    sync.Once
-		rdDone  = make(chan bool, 1)
+		stop    = make(chan struct{})
+		extDone = make(chan struct{})
 		extSent bool
 	)
-	go func() {
-		sc := bufio.NewScanner(repR)
-		for sc.Scan() {
-			l, ok := parseLine(sc.Text())
-			if !ok {
+	rc, err := repR.SyscallConn()
+	if err != nil {
+		out.Setup = "report pipe: " + err.Error()
+		return
+	}
+	drain := func() (eof bool) {
+		tmp := make([]byte, 4096)
+		for {
+			var n int
+			var rerr error
+			rc.Read(func(fd uintptr) bool {
+				n, rerr = syscall.Read(int(fd), tmp)
+				return true // never wait in the poller
+			})
+			if rerr == syscall.EINTR {
 				continue
 			}
-			mu.Lock()
-			lines = append(lines, l)
-			mu.Unlock()
-			if l.T == "ready" && s.ExtSignal > 0 {
-				select {
-				case <-pidSet:
-					if pid > 1 {
-						syscall.Kill(pid, syscall.Signal(s.ExtSignal))
-						mu.Lock()
-						extSent = true
-						mu.Unlock()
-					}
-				case <-time.After(5 * time.Second):
-				}
-				ctlW.Write([]byte{'x'})
+			if rerr != nil { // EAGAIN: nothing more for now
+				return false
 			}
+			if n == 0 {
+				return true
+			}
+			mu.Lock()
+			raw.Write(tmp[:n])
+			mu.Unlock()
 		}
-		rdDone <- sc.Err() == nil
-	}()
+	}
+	if s.ExtSignal > 0 {
+		go func() {
+			defer close(extDone)
+			for {
+				drain()
+				mu.Lock()
+				ready := bytes.Contains(raw.Bytes(), []byte("ready "))
+				mu.Unlock()
+				if ready {
+					select {
+					case <-pidSet:
+						if pid > 1 {
+							syscall.Kill(pid, syscall.Signal(s.ExtSignal))
+							mu.Lock()
+							extSent = true
+							mu.Unlock()
+						}
+					case <-time.After(5 * time.Second):
+					case <-stop:
+					}
+					ctlW.Write([]byte{'x'})
+					return
+				}
+				select {
+				case <-stop:
+					return
+				case <-time.After(time.Millisecond):
+				}
+			}
+		}()
+	} else {
+		close(extDone)
+	}
 	syncFunc := func(p int) error {
 		once.Do(func() {
 			pid = p
@@ -240,6 +280,12 @@ func (e *Env) Run(s Spec) (out Outcome) {
 	// Fixed descriptor layout (exec file below the program's files, nothing adjacent above them):
 	// keeps clear of the descriptor-shuffle defects of pkg/forkexec that belong to C06.
 	base := e.base()
+	for _, f := range []*os.File{repW, ctlR, data} {
+		if int(f.Fd()) >= 300 {
+			out.Setup = fmt.Sprintf("descriptor %d reaches the fixed slots (leak?)", f.Fd())
+			return
+		}
+	}
 	var files []uintptr
 	for k, f := range []*os.File{ctlR, e.null, e.null, repW, data} {
 		if err := unix.Dup3(int(f.Fd()), base+1+k, unix.O_CLOEXEC); err != nil {
@@ -319,18 +365,15 @@ func (e *Env) Run(s Spec) (out Outcome) {
 	repW.Close()
 	closeSlots() // our copy of the report pipe's write end must go, or EOF never comes
 	slotsOpen = false
-	select {
-	case ok := <-rdDone:
-		out.ReportEOF = ok
-	case <-time.After(3 * time.Second):
-		// somebody still holds the write end: everything the main process wrote is already
-		// in the pipe (it wrote before it ended), so stop reading
-		repR.SetReadDeadline(time.Now())
-		<-rdDone
-		out.ReportEOF = false
-	}
+	close(stop)
+	<-extDone
+	out.ReportEOF = drain()
 	mu.Lock()
-	out.Report = lines
+	for _, ln := range strings.Split(raw.String(), "\n") {
+		if l, ok := parseLine(ln); ok {
+			out.Report = append(out.Report, l)
+		}
+	}
 	out.ExtSent = extSent
 	mu.Unlock()
 	return
